@@ -10,6 +10,7 @@ import tempfile
 VERIF = os.path.dirname(os.path.dirname(os.path.abspath(__file__)))
 d = os.path.abspath(sys.argv[1])
 pids = sys.argv[2:]
+_before = set(os.listdir(os.path.join(VERIF, "replays"))) if os.path.isdir(os.path.join(VERIF, "replays")) else set()
 wt = tempfile.mkdtemp(prefix="wt_seed_", dir="/tmp")
 os.rmdir(wt)
 out = {"seed": os.path.basename(d)}
@@ -50,5 +51,13 @@ try:
                 break
 finally:
     subprocess.run(["git", "-C", "/repo", "worktree", "remove", "--force", wt])
-    subprocess.run("rm -f %s/replays/*" % VERIF, shell=True)
+    # remove only the replay files this run produced (other checks may be running)
+    rd = os.path.join(VERIF, "replays")
+    if os.path.isdir(rd):
+        for f in set(os.listdir(rd)) - _before:
+            if any(f.startswith(p + "_") for p in pids):
+                try:
+                    os.remove(os.path.join(rd, f))
+                except OSError:
+                    pass
 print(json.dumps(out, indent=1))
